@@ -9,6 +9,8 @@ import (
 	"go/ast"
 	"go/token"
 	"go/types"
+	"os"
+	"runtime/debug"
 	"sort"
 	"strings"
 
@@ -43,6 +45,7 @@ type IterState struct {
 }
 
 type State struct {
+	unroll map[*ssa.BasicBlock]int // loop headers executed without a cut on this path (exact unrolling of literal trip counts)
 	frames []*Frame
 	objs   map[int]Val
 	arrs   map[int]Val
@@ -87,6 +90,12 @@ func (s *State) clone() *State {
 		n.lets[k] = v
 	}
 	n.pc = append([]string{}, s.pc...)
+	if s.unroll != nil {
+		n.unroll = map[*ssa.BasicBlock]int{}
+		for k, v := range s.unroll {
+			n.unroll[k] = v
+		}
+	}
 	return n
 }
 
@@ -1092,6 +1101,9 @@ func (x *X) enterBlock(s *State) bool {
 		back := fr.prev != nil && b.Dominates(fr.prev) && fr.prev != nil && loopBlocks(b)[fr.prev]
 		invs := x.ct.Loops[ord]
 		if len(invs) == 0 {
+			if x.unrollStep(s, b) {
+				goto skipPhis
+			}
 			x.fail("loop %d has no invariant", ord)
 		}
 		if back {
@@ -1127,8 +1139,11 @@ func (x *X) enterBlock(s *State) bool {
 			}
 		}
 	} else if len(s.frames) > 1 && isLoopHeader(b) {
-		x.fail("loop inside inlined function %s", fr.fn.Name())
+		if !x.unrollStep(s, b) {
+			x.fail("loop inside inlined function %s", fr.fn.Name())
+		}
 	}
+skipPhis:
 	// skip phis
 	for fr.idx < len(b.Instrs) {
 		if _, ok := b.Instrs[fr.idx].(*ssa.Phi); ok {
@@ -1217,11 +1232,11 @@ func (x *X) step(s *State, in ssa.Instruction) bool {
 			}
 			fr.env[i] = PElem{base.ID, idx, nil}
 		case Ptr: // pointer to array
-			c, ok := i.Index.(*ssa.Const)
+			k, ok := x.literalIndex(s, i.Index)
 			if !ok {
 				x.fail("symbolic index into an array object")
 			}
-			fr.env[i] = Ptr{base.Obj, ap(base.Path, c.Value.ExactString())}
+			fr.env[i] = Ptr{base.Obj, ap(base.Path, k)}
 		default:
 			x.fail("indexaddr on %T", base)
 		}
@@ -1229,11 +1244,18 @@ func (x *X) step(s *State, in ssa.Instruction) bool {
 	case *ssa.Index:
 		switch base := x.val(s, i.X).(type) {
 		case St:
-			c, ok := i.Index.(*ssa.Const)
+			k, ok := x.literalIndex(s, i.Index)
 			if !ok {
 				x.fail("symbolic index into an array value")
 			}
-			fr.env[i] = base.F[c.Value.ExactString()]
+			el, has := base.F[k]
+			if !has {
+				x.emit(s, "nopanic", "nopanic.index@"+x.site(s), nil, "false", "index out of range")
+				s.dead = true
+				x.paths++
+				return false
+			}
+			fr.env[i] = el
 		default:
 			x.fail("index on %T", base)
 		}
@@ -1862,6 +1884,9 @@ func (x *X) verify() (res *VerifyResult) {
 			// any other failure of the executor on this function (a value shape it does not expect) also means that the
 			// function is outside its reach: reported as such, never as a crash of the whole check
 			res.Undecided = fmt.Sprintf("the executor failed on this function: %v", r)
+			if os.Getenv("GOVC_DEBUG") != "" {
+				fmt.Fprintf(os.Stderr, "executor failure: %v\n%s\n", r, debug.Stack())
+			}
 			res.Obligs = nil
 		}
 	}()
@@ -2161,4 +2186,78 @@ func (x *X) emitPathCover(s *State, name string, block int) {
 		PC: visiblePC(s.pc, ""), Vacuity: true, Clause: "reachable: " + name}
 	o.Decls = x.decls[:len(x.decls):len(x.decls)]
 	x.obligs = append(x.obligs, o)
+}
+
+// unrollStep: a range loop over a slice whose length is a literal (a composite literal table) needs no invariant: it is
+// executed iteration by iteration -- exact, not a bound, because the loop condition compares two literals and decides
+// itself. Anything else (symbolic length, hand-written condition) is refused, and so is a table of more than 32 entries.
+func (x *X) unrollStep(s *State, h *ssa.BasicBlock) bool {
+	fr := s.top()
+	var idx *ssa.Phi
+	for _, in := range h.Instrs {
+		if p, ok := in.(*ssa.Phi); ok && p.Comment == "rangeindex" {
+			idx = p
+		}
+	}
+	if idx == nil {
+		if os.Getenv("GOVC_DEBUG") != "" {
+			fmt.Fprintf(os.Stderr, "unrollStep b%d: no rangeindex phi; instrs: %v\n", h.Index, h.Instrs)
+		}
+		return false
+	}
+	// the loop condition: rangeindex+1 < len, with len evaluated to a literal before the loop
+	dbg := func(msg string, a ...interface{}) bool {
+		if os.Getenv("GOVC_DEBUG") != "" {
+			fmt.Fprintf(os.Stderr, "unrollStep b%d: "+msg+"\n", append([]interface{}{h.Index}, a...)...)
+		}
+		return false
+	}
+	iff, ok := h.Instrs[len(h.Instrs)-1].(*ssa.If)
+	if !ok {
+		return dbg("header does not end in If")
+	}
+	cmp, ok := iff.Cond.(*ssa.BinOp)
+	if !ok || cmp.Op != token.LSS {
+		return dbg("condition %v", iff.Cond)
+	}
+	var lv Val
+	if c, isC := cmp.Y.(*ssa.Const); isC && c.Value != nil {
+		lv = Sc{T: fmt.Sprint(c.Int64()), Sort: "Int"}
+	} else {
+		lv = x.tryVal(s, cmp.Y)
+	}
+	lsc, ok := lv.(Sc)
+	if !ok || !isDigits(lsc.T) {
+		return dbg("length %#v of %v; header %v", lv, cmp.Y, h.Instrs)
+	}
+	var n int
+	fmt.Sscan(lsc.T, &n)
+	if n > 32 {
+		return false
+	}
+	cur, ok := fr.env[idx].(Sc)
+	if os.Getenv("GOVC_DEBUG") != "" {
+		fmt.Fprintf(os.Stderr, "unrollStep b%d: len=%q idx=%#v\n", h.Index, lsc.T, fr.env[idx])
+	}
+	if !ok || !(isDigits(cur.T) || cur.T == "(- 1)" || cur.T == "-1") {
+		return false
+	}
+	if s.unroll == nil {
+		s.unroll = map[*ssa.BasicBlock]int{}
+	}
+	s.unroll[h]++
+	return s.unroll[h] <= n+2
+}
+
+// literalIndex: an array index that is a constant, or evaluates to a literal on this path (an unrolled loop counter).
+func (x *X) literalIndex(s *State, v ssa.Value) (string, bool) {
+	if c, ok := v.(*ssa.Const); ok && c.Value != nil {
+		return c.Value.ExactString(), true
+	}
+	if sc, ok := x.tryVal(s, v).(Sc); ok {
+		if n, isLit := smallLit(sc.T); isLit && n >= 0 {
+			return fmt.Sprint(n), true
+		}
+	}
+	return "", false
 }
